@@ -205,7 +205,11 @@ def main(prop, check_module, cases, tier, seed, describe, symbolic=True, deadlin
             else:
                 violations.append(v)
     wall = time.time() - t0
-    # ---------------------------------------------------------------- report
+    if os.environ.get("VERIF_SIG_DUMP"):
+        # development aid (never used by a registered command): the signatures of everything reported, listed or not
+        with open(os.environ["VERIF_SIG_DUMP"], "a") as f:
+            for v in violations + [v for _, v in known_hits]:
+                f.write("%s\t%s\n" % (v.get("signature"), (v.get("summary") or "")[:160]))
     seen_known = set()
     for e, v in known_hits:
         key = e.get("signature") or e.get("keyed_by") or ("%s:list#%d" % (prop, known.index(e)))
